@@ -161,14 +161,20 @@ func (s *State) jump(from, to *ssa.BasicBlock) {
 	for i := len(s.loops) - 1; i >= 0; i-- {
 		lf := s.loops[i]
 		if lf.L.Header == to {
+			// inner loops are left by this jump
+			for k := len(s.loops) - 1; k > i; k-- {
+				s.evalSteps(s.loops[k], true, nil)
+			}
 			s.loops = s.loops[:i+1]
 			s.closeIteration(lf)
+			s.evalSteps(lf, false, nil)
 			s.coll.paths++
 			return
 		}
 	}
 	// leave loops that do not contain the target
 	for len(s.loops) > 0 && !s.loops[len(s.loops)-1].L.Body[to] {
+		s.evalSteps(s.loops[len(s.loops)-1], true, nil)
 		s.loops = s.loops[:len(s.loops)-1]
 	}
 	for _, l := range loops {
@@ -278,7 +284,7 @@ func (s *State) enterLoop(l *Loop) {
 		_ = safeSpec(func() { lf.Measure = s.define("measure", sInt, env.eval(l.Spec.Decreases.Expr).Terms[0]) })
 	}
 	// vacuity guard for the loop head
-	if len(invs) > 0 {
+	{
 		s.coll.obls = append(s.coll.obls, &Obligation{Func: s.eng.fnKey(s.fn), Kind: "vacuity", Name: "loop-head-reachable:" + l.Name, Props: s.defaultProps(),
 			Cmds: append([]string(nil), s.cmds...), Goal: "false", Expect: "sat", Where: where, Path: strings.Join(s.trace, ">")})
 	}
@@ -531,12 +537,16 @@ func mapHeapBases(mt *types.Map) []heapBaseInfo {
 	k := typeKey(mt)
 	ks := shapeOf(mt.Key())[0].Sort
 	out := []heapBaseInfo{
-		{"mapdom<" + k + ">", []heapLeaf{{"mapdom<" + k + ">", arrSort(sInt, arrSort(ks, sBool)), arrSort(ks, sBool), false}}},
-		{"mapcard<" + k + ">", []heapLeaf{{"mapcard<" + k + ">", arrSort(sInt, sInt), sInt, false}}},
+		{"mapdom<" + k + ">", []heapLeaf{{Name: "mapdom<" + k + ">", Sort: arrSort(sInt, arrSort(ks, sBool)), Elem: arrSort(ks, sBool)}}},
+		{"mapcard<" + k + ">", []heapLeaf{{Name: "mapcard<" + k + ">", Sort: arrSort(sInt, sInt), Elem: sInt}}},
 	}
 	var vl []heapLeaf
 	for _, l := range shapeOf(mt.Elem()) {
-		vl = append(vl, heapLeaf{"mapval<" + k + ">" + l.Name, arrSort(sInt, arrSort(ks, l.Sort)), arrSort(ks, l.Sort), false})
+		hl := heapLeaf{Name: "mapval<" + k + ">" + l.Name, Sort: arrSort(sInt, arrSort(ks, l.Sort)), Elem: arrSort(ks, l.Sort)}
+		if l.Ref {
+			hl.MapValRef = ks
+		}
+		vl = append(vl, hl)
 	}
 	out = append(out, heapBaseInfo{"mapval<" + k + ">", vl})
 	return out
@@ -686,10 +696,9 @@ func (s *State) evalFrameItem(it *SExpr, env *SpecEnv) frameItem {
 			fi.bases = mapHeapBases(mt)
 			return fi
 		case "allmaps":
-			mv := env.eval(it.Args[0])
-			mt, ok := mv.T.Underlying().(*types.Map)
+			mt, ok := env.resolveType(it.Args[0].Name).Underlying().(*types.Map)
 			if !ok {
-				specFail("modifies %s: not a map", it)
+				specFail("modifies %s: not a map type", it)
 			}
 			fi.whole = true
 			fi.bases = mapHeapBases(mt)
@@ -1111,7 +1120,13 @@ func (s *State) execUnOp(in *ssa.UnOp, where string) Val {
 			v.Origin = loc
 		}
 		// values read from memory are well-typed (ints in range, lengths non-negative, references allocated)
-		if v.Loc == nil && loc.Cell == nil {
+		hasIndex := false
+		for _, sl := range loc.Path {
+			if sl.Field < 0 {
+				hasIndex = true
+			}
+		}
+		if v.Loc == nil && (loc.Cell == nil || hasIndex) {
 			s.typeFacts(v.T, v.Terms, s.alloc)
 		}
 		return v
@@ -1571,6 +1586,33 @@ func (s *State) mapStore(mt *types.Map, ref, key string, v Val, where string) {
 	}
 }
 
+// evalSteps checks the two-state per-iteration clauses of a loop at the end of an iteration
+// (back edge: exit=false; the path leaves the loop by break/return: exit=true).
+func (s *State) evalSteps(lf *loopFrame, exit bool, results map[string]Val) {
+	l := lf.L
+	if l.Spec == nil || len(l.Spec.Steps) == 0 {
+		return
+	}
+	where := s.eng.pos(l.MinPos)
+	env := s.specEnv()
+	env.iter = lf.Head
+	env.pre = lf.Pre
+	env.lp = l
+	env.vars = map[string]Val{"$exit": mkBool(fmt.Sprint(exit)), "$returned": mkBool(fmt.Sprint(results != nil))}
+	for k, v := range results {
+		env.vars[k] = v
+	}
+	for _, c := range l.Spec.Steps {
+		c := c
+		err := safeSpec(func() {
+			s.oblige("step", l.Name+"/"+c.Name, c.Props, env.evalBool(c.Expr), where, c.Src)
+		})
+		if err != nil {
+			s.coll.specErr(s.eng, s.fn, c, err)
+		}
+	}
+}
+
 // doPanic: an explicit panic is reachable only in entry states allowed by the contract's maypanic clauses.
 func (s *State) doPanic(where string) {
 	goal := "false"
@@ -1593,6 +1635,9 @@ func (s *State) doPanic(where string) {
 // ---- return ----------------------------------------------------------------------
 
 func (s *State) doReturn(in *ssa.Return) {
+	// vacuity guard: some return must be reachable under the accumulated assumptions
+	s.coll.obls = append(s.coll.obls, &Obligation{Func: s.eng.fnKey(s.fn), Kind: "vacuity", Name: "return-reachable", Props: s.defaultProps(),
+		Cmds: append([]string(nil), s.cmds...), Goal: "false", Expect: "sat", Where: s.eng.pos(s.fn.Pos()), Path: strings.Join(s.trace, ">")})
 	if s.spec == nil {
 		return
 	}
@@ -1602,18 +1647,25 @@ func (s *State) doReturn(in *ssa.Return) {
 		env.vars[k] = v
 	}
 	sig := s.fn.Signature
+	results := map[string]Val{}
 	for i, r := range in.Results {
 		v := s.valueOf(r)
 		if v.Loc != nil {
 			s.unsupported("returning an interior pointer")
 		}
 		env.vars[fmt.Sprintf("result%d", i)] = v
+		results[fmt.Sprintf("result%d", i)] = v
 		if len(in.Results) == 1 {
 			env.vars["result"] = v
+			results["result"] = v
 		}
 		if n := sig.Results().At(i).Name(); n != "" && n != "_" {
 			env.vars[n] = v
 		}
+	}
+	// a return inside loops ends the current iteration of each of them
+	for k := len(s.loops) - 1; k >= 0; k-- {
+		s.evalSteps(s.loops[k], true, results)
 	}
 	env.fn = nil // post-conditions talk about parameters (entry values), results and the heap
 	where := s.eng.pos(in.Pos())
